@@ -132,3 +132,113 @@ def trailer_query(kind, ril, avail, core=False, witness=False):
     p = dict(harness="harness/C02/h_trailer.c", units=["igzip/hufftables_c.c"], defines=FAST, hdefines=hdef,
              unwind=max(10, 8 + avail + 2), witness=witness)
     return Query("trailer_%s/ril%d_av%d" % (kind, ril, avail), R, p, core=core, family="trailer_" + kind, weight=1)
+
+
+# ---------------------------------------------------------------- dynamic header: code-length decoding loop (lead)
+CLC_LENS = [4] * 13 + [5] * 6       # code-length code: symbols 0..12 -> 4 bits, 13..18 -> 5 bits (Kraft sum exactly 1)
+CLC_ORDER = [16, 17, 18, 0, 8, 7, 9, 6, 10, 5, 11, 4, 12, 3, 13, 2, 14, 1, 15]
+
+
+def _canon(lens):
+    """RFC 1951 3.2.2 canonical codes: {sym: (code, len)}."""
+    blc = [0] * 16
+    for l in lens:
+        blc[l] += 1
+    blc[0] = 0
+    nxt, code = [0] * 16, 0
+    for b in range(1, 16):
+        code = (code + blc[b - 1]) << 1
+        nxt[b] = code
+    out = {}
+    for s, l in enumerate(lens):
+        if l:
+            out[s] = (nxt[l], l)
+            nxt[l] += 1
+    return out
+
+
+class _Bits:
+    def __init__(self):
+        self.bits = []
+
+    def put(self, v, n):            # data elements: LSB first
+        for i in range(n):
+            self.bits.append((v >> i) & 1)
+
+    def huff(self, code, n):        # Huffman codes: MSB first
+        for i in range(n - 1, -1, -1):
+            self.bits.append((code >> i) & 1)
+
+    def bytes(self):
+        b = self.bits + [0] * (-len(self.bits) % 8)
+        return [sum(b[i + j] << j for j in range(8)) for i in range(0, len(b), 8)]
+
+
+def dyn_prefix(hlit, hdist, p0, bfinal=1):
+    """Concrete dynamic-block header + the first p0 code lengths: zeros everywhere except length 1 for symbol 256
+    (when p0 > 256) and length 2 for the last prefix position (so that a following `16` repeats a non-zero length)."""
+    cc = _canon(CLC_LENS)
+    w = _Bits()
+    w.put(bfinal, 1), w.put(2, 2), w.put(hlit, 5), w.put(hdist, 5), w.put(15, 4)
+    for s in CLC_ORDER:
+        w.put(CLC_LENS[s], 3)
+    want = [0] * p0
+    if p0 > 256:
+        want[256] = 1
+    if p0 > 0:
+        want[p0 - 1] = 2
+    i = 0
+    w.nsym = 0
+    while i < p0:
+        w.nsym += 1
+        if want[i]:
+            w.huff(*cc[want[i]])
+            i += 1
+            continue
+        run = 0
+        while i + run < p0 and want[i + run] == 0:
+            run += 1
+        while run:
+            if run >= 11:
+                n = min(run, 138)
+                w.huff(*cc[18]), w.put(n - 11, 7)
+            elif run >= 3:
+                n = run
+                w.huff(*cc[17]), w.put(n - 3, 3)
+            else:
+                n = 1
+                w.huff(*cc[0])
+            run -= n
+            i += n
+            if run:
+                w.nsym += 1
+    return w.bytes(), len(w.bits), w.nsym
+
+
+def dynlens_query(hlit, hdist, back, tail, core=False, witness=False, timeout=None, mem_gb=None):
+    """C02/C06: setup_dynamic_header's code-length loop; the first p0 = HLIT+257-back lengths are concrete."""
+    p0 = 257 + hlit - back
+    pfx, nbits, npfx = dyn_prefix(hlit, hdist, p0)
+    rest = back + hdist + 1
+    hdef = ["HLIT=%d" % hlit, "HDIST=%d" % hdist, "TAIL=%d" % tail, "PFX_BITS=%d" % nbits,
+            "PFX=" + ",".join(str(b) for b in pfx)]
+    nsym = npfx + min(rest, 2 * tail) + 2      # concrete prefix symbols + at most 2 symbols per arbitrary byte (4-bit codes)
+    anchor = r"set_codes\(&lit_and_dist_huff\[LIT_LEN\], DIST_LEN, dist_count\)"
+    text = "        VERIF_DYNHDR_CAPTURE(state, lit_and_dist_huff, hlit, hdist, lit_count, dist_count, lit_expand_count);"
+    p = dict(harness="harness/C02/h_dynlens.c", units=["igzip/hufftables_c.c"], defines=FAST, hdefines=hdef,
+             instrument=[["igzip/igzip_inflate.c", "igzip_inflate.c", anchor, text],
+                         ["igzip/igzip_inflate.c", "igzip_inflate.c", r"symbol = decode_next_header\(state, &inflate_code_huff\)",
+                          "symbol = VERIF_DECODE_NEXT_HEADER(state, &inflate_code_huff)", "replace"]],
+             remove=["make_inflate_huff_code_header", "make_inflate_huff_code_lit_len", "make_inflate_huff_code_dist", "set_and_expand_lit_len_huffcode",
+                     "setup_static_header", "header_matches_pregen", "setup_pregen_header"],
+             unwind=600,    # loops with concrete trip counts unroll exactly; the data-dependent ones are bounded below
+             unwindset=["setup_dynamic_header.2:7", "setup_dynamic_header.3:%d" % nsym, "spec_lengths.2:8",
+                        "spec_lengths.3:%d" % nsym, "inflate_in_load.0:9", "rfc_bits.0:17", "rfc_decode.0:17"],
+             # measured on hlit5_hdist3_back1_t1: default 250 s; --slice-formula 190 s; + --no-array-field-sensitivity 164 s
+             flags=["--slice-formula", "--no-array-field-sensitivity"], witness=witness)
+    if timeout:
+        p["timeout"] = timeout
+    if mem_gb:
+        p["mem_gb"] = mem_gb
+    return Query("dyn_header_lengths/hlit%d_hdist%d_back%d_t%d" % (hlit, hdist, back, tail), R, p, core=core,
+                 family="dyn_header_lengths", weight=20)
